@@ -142,7 +142,25 @@ def volume(b, v, tier):
         base = pool.obj_line("cmd", j, 3100000 + j)
         room = pad - len(base.encode("utf-8")) - 9          # the finished line is exactly `pad` bytes long
         distinct.append(("cmd", base[:-1] + ',"pad":"' + "p" * max(1, room) + '"}', 3100000 + j))
-    cfgs = sl.stream_cfgs("basic")
+    # plan summaries of every stage kind whose index keys are field names that OTHER lines of the log use (a line's result must not
+    # depend on what earlier lines taught a side table), in a namespace --redactFieldNames selects
+    plans = ["IXSCAN { name: 1 }", "DISTINCT_SCAN { name: 1 }", "COUNT_SCAN { name: 1, age: -1 }", "IXSCAN { email: 1 }, IXSCAN { age: 1 }",
+             "SORT_MERGE { email: 1 }", "COLLSCAN", "IDHACK", "EOF", "TEXT_MATCH { _fts: \"text\", _ftsx: 1 }", "GEO_NEAR_2DSPHERE { k: \"2dsphere\" }",
+             "DISTINCT_SCAN { k: 1, cnt: 1 }", "EXPRESS_IXSCAN { _id: 1 }"]
+    for j, ps in enumerate(plans):
+        idn = 3200000 + j
+        d = sl._cmd(idn, "COMMAND", "Slow query", {"type": "command", "ns": sl.NS, "command": {"distinct": "collZn", "key": "region", "query": {"zone%d" % j: "v%d" % j}, "$db": "dbZn"},
+                                                   "planSummary": ps, "durationMillis": 7 + j})
+        distinct.append(("cmd", sl._dumps(d), idn))
+    # JSON-object lines nested very deep (outside every zone) but well inside the line limit: one output line each
+    deep_texts = []
+    for j, depth in enumerate((200, 1000, 5000, 9999, 10000, 10001, 10500, 20000, 30000)):
+        idn = 3300000 + j
+        base = pool.obj_line("oth" if j % 2 else "cmd", j, idn)
+        text = base[:-1] + ',"deep":' + "[" * depth + "]" * depth + "}"
+        distinct.append(("cmd", text, idn))
+        deep_texts.append((depth, text))
+    cfgs = sl.stream_cfgs("full")
     singles = sl.Singles(b, wd)
     n = 0
     nlines = 3000 if tier == "quick" else 40000
@@ -150,6 +168,14 @@ def volume(b, v, tier):
     for cfg in cfgs:
         singles.need(cfg, [t for k, t, _ in distinct if k in sl.OBJ_KINDS])
         exp = b"".join(singles.get(cfg, t)["out"] for k, t, _ in seq if k in sl.OBJ_KINDS)
+        for depth, text in deep_texts:
+            r1 = singles.get(cfg, text)
+            o1 = r1["out"] or b""
+            v.count()
+            if r1["rc"] != 0 or o1.count(b"\n") != 1 or not o1.startswith(b"{") or not o1.endswith(b"}\n"):
+                v.violation("a JSON-object line nested %s levels deep run alone does not yield exactly one JSON-object line cfg=%s" % (
+                    "more than 10000" if depth > 10000 else "up to 10000", cfg.name),
+                    {"flags": cfg.flags, "nesting_depth": depth, "line_bytes": len(text), "exit": r1["rc"], "output_bytes": len(o1), "stderr": r1["stderr"][:300]})
         for crlf, final_nl in ((False, True), (True, False)):
             data = sl.file_bytes(seq, final_nl, crlf)
             for ic, oc in (("file", "stdout"), ("gz", "file"), ("stdin", "stdout"), ("file", "file"), ("stdin", "file"), ("gzmulti", "stdout")):
